@@ -291,6 +291,10 @@ type observation struct {
 	Events   []string          // projected events of the sprint (texts the engine evaluated)
 	Tpls     []tplOut
 	Snaps    []*runSnap        // the model's inputs per run, taken at observation time
+	Redact   bool              // policy of the environment the harness supplied last (trigger or resume)
+	Flipped  bool              // this resume supplied an environment differing only in redaction_policy
+	EnvPolicy    envs.RedactionPolicy // what the session's environment says
+	EnvRefreshed bool                 // the sprint logged environment_refreshed
 	Session  flows.Session
 	Env      envs.Environment
 }
@@ -352,7 +356,8 @@ func projectEvents(evs []flows.Event) []string {
 }
 
 func observe(point string, session flows.Session, sprint flows.Sprint, redact bool, tpls func(*node) []string) *observation {
-	o := &observation{Point: point, Status: string(session.Status()), Session: session, Env: session.Environment(), RunCtx: map[string]*node{}}
+	o := &observation{Point: point, Status: string(session.Status()), Session: session, Env: session.Environment(), RunCtx: map[string]*node{},
+		Redact: redact, EnvPolicy: session.Environment().RedactionPolicy()}
 	if cc := session.CurrentContext(); cc != nil {
 		o.Ctx = walk(session.Environment(), cc, 0)
 	}
@@ -363,6 +368,11 @@ func observe(point string, session flows.Session, sprint flows.Sprint, redact bo
 	}
 	if sprint != nil {
 		o.Events = projectEvents(sprint.Events())
+		for _, e := range sprint.Events() {
+			if e.Type() == "environment_refreshed" {
+				o.EnvRefreshed = true
+			}
+		}
 	}
 	if tpls != nil {
 		// generated templates are evaluated now, on the session state of this observation point
@@ -404,7 +414,7 @@ func evalTemplates(o *observation, tpls []string) {
 	}
 }
 
-func runSession(sc *scenario, side int, redact bool, seed uint64, tplsFor func(point int, ctx *node) []string) *sessionRun {
+func runSession(sc *scenario, side int, redact bool, seed uint64, tplsFor func(point int, hidden bool, ctx *node) []string) *sessionRun {
 	sr := &sessionRun{}
 	fail := func(stage string, err error) *sessionRun {
 		sr.Err = stage + ": " + err.Error()
@@ -415,10 +425,13 @@ func runSession(sc *scenario, side int, redact bool, seed uint64, tplsFor func(p
 	if err != nil {
 		return fail("assets", err)
 	}
+	// the environment the assets are loaded with is NOT the session's (that comes with the trigger): in some scenarios
+	// it carries the opposite policy, the trigger's environment must win
 	eb := envs.NewBuilder()
-	if redact {
+	if redact != sc.AssetsPolicyOpposite {
 		eb = eb.WithRedactionPolicy(envs.RedactionPolicyURNs)
 	}
+	inForce := redact
 	sa, err := engine.NewSessionAssets(eb.Build(), src, nil)
 	if err != nil {
 		return fail("session-assets", err)
@@ -434,7 +447,7 @@ func runSession(sc *scenario, side int, redact bool, seed uint64, tplsFor func(p
 	if err != nil {
 		return fail("new-session", err)
 	}
-	tp := func(ctx *node) []string { return tplsFor(len(sr.Obs), ctx) }
+	tp := func(ctx *node) []string { return tplsFor(len(sr.Obs), inForce, ctx) }
 	if tplsFor == nil {
 		tp = nil
 	}
@@ -443,7 +456,10 @@ func runSession(sc *scenario, side int, redact bool, seed uint64, tplsFor func(p
 		if session.Status() != flows.SessionStatusWaiting {
 			break
 		}
-		res, err := resumes.ReadResume(sa, sc.resumeJSON(i, side, redact), missing)
+		if sc.Resumes[i].FlipPolicy {
+			inForce = !inForce // this resume supplies the same environment with the other redaction policy
+		}
+		res, err := resumes.ReadResume(sa, sc.resumeJSON(i, side, inForce), missing)
 		if err != nil {
 			return fail(fmt.Sprintf("resume-%d", i), err)
 		}
@@ -451,7 +467,9 @@ func runSession(sc *scenario, side int, redact bool, seed uint64, tplsFor func(p
 		if err != nil {
 			return fail(fmt.Sprintf("resume-%d-apply", i), err)
 		}
-		sr.Obs = append(sr.Obs, observe(fmt.Sprintf("after-resume-%d", i), session, sprint, redact, tp))
+		ob := observe(fmt.Sprintf("after-resume-%d", i), session, sprint, inForce, tp)
+		ob.Flipped = sc.Resumes[i].FlipPolicy
+		sr.Obs = append(sr.Obs, ob)
 	}
 	return sr
 }
